@@ -76,13 +76,18 @@ def obs_events(chk):
     rng = np.random.RandomState(1900 + chk.seed)
     batch = obs.Batch('ObsC19')
     reps = 8 if chk.tier == 'quick' else 60
-    for rep in range(reps):
-        N = int(rng.choice([16, 33, 64, 128, 256] + ([512, 1024] if chk.tier != 'quick' else [])))
-        NW = float(rng.choice([1.5, 2, 2.5, 3, 4]))
-        if NW >= N / 2.0:
-            NW = 1.5
-        k = int(rng.randint(1, int(2 * NW) + 1))
-        cplx = bool(rng.randint(2))
+    # directed corner cases first (single taper, default k, k = 2NW), then random ones
+    directed = [(32, 1.0, 1, False), (32, 1.0, 1, True), (33, 2.0, 1, True), (24, 1.5, 3, False), (40, 2.5, 5, True), (16, 2.0, 4, False)]
+    for rep in range(reps + len(directed)):
+        if rep < len(directed):
+            N, NW, k, cplx = directed[rep]
+        else:
+            N = int(rng.choice([16, 33, 64, 128, 256] + ([512, 1024] if chk.tier != 'quick' else [])))
+            NW = float(rng.choice([1.5, 2, 2.5, 3, 4]))
+            if NW >= N / 2.0:
+                NW = 1.5
+            k = int(rng.randint(1, int(2 * NW) + 1))
+            cplx = bool(rng.randint(2))
         x = zoo.signal(rng, N, cplx, ['noise', 'tones'][rep % 2])
         nfft = int(rng.choice([N, N + 3, 2 * N]))
         ok, tv = call_guard(dpss, N, NW, k)
